@@ -194,4 +194,46 @@ def cutAt {α} (rows : List α) : Nat → List Nat → List (List α)
   | prev, [] => [rows.drop prev]
   | prev, c :: cs => (rows.take c).drop prev :: cutAt rows c cs
 
+/-! ## the writers, format by format (what one `write(table)` call produces) -/
+
+/-- constants of the package that the writers use; re-measured on every run into `Gen.C03.consts` -/
+structure Consts where
+  fastaWidth : Nat
+  fastaMarker : Nat
+  fastqMarker : Nat
+  fastqOffsets : List Nat
+
+def isVcf (fmt : String) : Bool := fmt = "vcf" ∨ fmt = "vcfs" ∨ fmt = "vcf2"
+
+/-- what the format's `from_data` does to a record before the generic delimited serialiser: VCF `position + 1`,
+GFA the record-type column `S` in front -/
+def prepRow (fmt : String) (r : Row) : Row :=
+  if isVcf fmt then shiftPos 1 r
+  else if fmt = "gfa" then Cell.text [83] :: r
+  else r
+
+def prep (fmt : String) (rows : List Row) : List Row := rows.map (prepRow fmt)
+
+/-- (name, sequence) of a FASTA record -/
+def entriesOf (rows : List Row) : List (Bytes × Bytes) :=
+  rows.map (fun r => match r.map cellText with
+    | [n, s] => (n, s)
+    | _ => ([], []))
+
+/-- the code's serialiser for one `write` call (the delimited one takes its column count from the first record) -/
+def dumpModel (K : Consts) (fmt : String) (rows : List Row) : Bytes :=
+  if fmt = "fasta" then (if rows = [] then [] else dumpFasta K.fastaWidth (entriesOf rows))
+  else if fmt = "fastq" then dumpFastq K.fastqMarker K.fastqOffsets rows
+  else if fmt = "fasta2" then joinFields K.fastaMarker [1, 0] (rows.map (·.map cellText))
+  else
+    let rs := prep fmt rows
+    dumpDelimited ((rs.head?.map List.length).getD 0) rs
+
+/-- the canonical serialisation of a table in a format -/
+def dumpCanon (fmt : String) (rows : List Row) : Bytes :=
+  if fmt = "fasta" then fastaSpec 80 (entriesOf rows)
+  else if fmt = "fastq" then fastqSpec rows
+  else if fmt = "fasta2" then (entriesOf rows).flatMap (fun e => 62 :: e.1 ++ [10] ++ e.2 ++ [10])
+  else dumpSpec 9 ((prep fmt rows).map (·.map cellText))
+
 end C03
